@@ -78,6 +78,23 @@ class Src:
             self._alpha_db = {}
         self._load()
 
+    def init_defaults(self, rel, cname):
+        """attributes that the __init__ chain of a class sets to a literal (None, numbers, strings, empty containers): {name: value}; used to give symbolic
+        stand-ins of job objects the attributes a method may read or cache into"""
+        out = {}
+        ci = self.cls(rel, cname)
+        for c in reversed(self.mro(ci)) if hasattr(self, "mro") else [ci]:
+            init = c.methods.get("__init__")
+            if init is None:
+                continue
+            for st in ast.walk(init.node):
+                if isinstance(st, ast.Assign) and len(st.targets) == 1 and isinstance(st.targets[0], ast.Attribute) and isinstance(st.targets[0].value, ast.Name) and st.targets[0].value.id == "self":
+                    try:
+                        out[st.targets[0].attr] = ast.literal_eval(st.value)
+                    except (ValueError, SyntaxError, TypeError):
+                        pass
+        return out
+
     # ------------------------------------------------------------------ loading
     def _load(self):
         root = os.path.join(self.repo, self.pkg)
